@@ -2028,6 +2028,9 @@ package goatlang
 //@   ensures#wf wfC(c) && keepsC(c)
 //@   ensures#span c.Optimize ==> optimized(thenI) && (len(elseI) > 0 ==> optimized(elseI))
 //@   ensures#noelse len(elseI) == 0 ==> len(res) >= len(thenI) + 1 && res[len(res)-len(thenI)-1].Code == codeJumpFalse && int(res[len(res)-len(thenI)-1].A) == len(thenI)
+//@   ensures#else len(elseI) > 0 ==> len(res) >= len(thenI) + len(elseI) + 2 && res[len(res)-len(elseI)-len(thenI)-2].Code == codeJumpFalse && int(res[len(res)-len(elseI)-len(thenI)-2].A) == len(thenI) + 1 && res[len(res)-len(elseI)-1].Code == codeJump && int(res[len(res)-len(elseI)-1].A) == len(elseI)
+//@   ensures#thenplaced len(elseI) > 0 ==> (forall j int :: 0 <= j && j < len(thenI) ==> res[len(res)-len(elseI)-len(thenI)-1+j] == thenI[j])
+//@   ensures#elseplaced len(elseI) > 0 ==> (forall j int :: 0 <= j && j < len(elseI) ==> res[len(res)-len(elseI)+j] == elseI[j])
 //@ func newPos
 //@   property C20 C06
 //@   trusted
